@@ -1398,7 +1398,12 @@ class UWG(object):
 
         epw_prec = self.epw_precision  # precision of epw file input
 
-        if os.path.realpath(self.new_epw_path) == os.path.realpath(self.epw_path):
+        same_file = os.path.realpath(self.new_epw_path) == os.path.realpath(self.epw_path)
+        if not same_file and os.path.exists(self.new_epw_path) and \
+                os.path.exists(self.epw_path):
+            # another name (hard link) of the rural file
+            same_file = os.path.samefile(self.new_epw_path, self.epw_path)
+        if same_file:
             raise Exception('The new epw file path "{}" is the rural epw file itself. '
                             'Choose another new_epw_dir or new_epw_name.'.format(
                                 self.new_epw_path))
